@@ -285,6 +285,18 @@ func (p *Path) atomRange(a string) (lo int64, hi int64, hiKnown bool) {
 
 // lowerBound returns the minimum of l over the atom intervals (ok=false: unbounded below).
 func (p *Path) lowerBound(l *Lin) (int64, bool) {
+	lb, ok := p.lowerBoundIv(l)
+	// a path constraint c >= 0 with l - c constant gives l >= that constant
+	for _, c := range p.Cons {
+		d := l.Sub(c)
+		if d.IsConst() && (!ok || d.C > lb) {
+			lb, ok = d.C, true
+		}
+	}
+	return lb, ok
+}
+
+func (p *Path) lowerBoundIv(l *Lin) (int64, bool) {
 	lb := l.C
 	for a, c := range l.T {
 		lo, hi, hk := p.atomRange(a)
